@@ -1,6 +1,6 @@
 SPECIFICATION Spec
 CONSTANTS
-  Families = {"va"}
+  Families = {"ne"}
   DynLen = 3
   CdLen = 2
 INVARIANT NoResidual
